@@ -189,3 +189,69 @@ def r2(ctx):
 def r3(ctx):
     from . import c01
     c01.r5(ctx)
+
+
+def _is_bare_hyper(ana, fi, e, taint) -> bool:
+    """The expression is the hyper-parameter value itself (a tainted name / attribute), not yet widened."""
+    if isinstance(e, ast.Name):
+        fl = Flow(ana, fi)
+        p = fl.resolves_to_param(e)
+        return p is not None and p in taint.get(fi.qualname, set())
+    if isinstance(e, ast.Attribute) and e.attr in HYPER:
+        return ana.res.type_of(fi, e.value)[0] == "cls"
+    return False
+
+
+def _is_int_valued(ana, fi, e) -> bool:
+    from ..resolve import T_INT
+    if ana.res.type_of(fi, e) == T_INT:
+        return True
+    if isinstance(e, ast.Constant) and isinstance(e.value, int) and not isinstance(e.value, bool):
+        return True
+    if isinstance(e, ast.BinOp) and isinstance(e.op, (ast.Add, ast.Sub, ast.Mult)):
+        return _is_int_valued(ana, fi, e.left) and _is_int_valued(ana, fi, e.right)
+    if isinstance(e, ast.Name):
+        fl = Flow(ana, fi)
+        d = fl.sole_def(e.id, fl.at(e))
+        if d is not None and d.kind == "stmt" and isinstance(d.ast, ast.Assign):
+            return _is_int_valued(ana, fi, d.ast.value)
+        if d is not None and d.kind == "entry":
+            ann = fi.param_annotation(e.id)
+            return ann is not None and unparse(ann) == "int"
+    return False
+
+
+@rule("C18", "R4", "DISPATCH", "scalar arithmetic on a raw hyper-parameter is done in Python/float64, never in the caller's NumPy scalar type", floor=1)
+def r4(ctx):
+    """A NumPy scalar keeps its dtype under scalar arithmetic: -np.uint8(1) wraps to 255, np.int8(50)*3 wraps,
+    np.float16 rounds.  Arithmetic with a float64 array operand is promoted and is fine; scalar-only arithmetic must
+    widen first (float(x))."""
+    ana = ctx.ana
+    taint = tainted_params(ana)
+    seen = 0
+    for fi in ana.prog.functions.values():
+        if not taint.get(fi.qualname) and not any(isinstance(n, ast.Attribute) and n.attr in HYPER for n in Resolver.walk_own(fi.node)):
+            continue
+        for n in Resolver.walk_own(fi.node):
+            if isinstance(n, ast.UnaryOp) and isinstance(n.op, (ast.USub, ast.Invert)) and _is_bare_hyper(ana, fi, n.operand, taint):
+                seen += 1
+                ctx.fail(fi, f"`{unparse(n)}` negates a raw hyper-parameter: an unsigned NumPy scalar wraps around "
+                             "(np.uint8(1) -> 255), so the result depends on the scalar's dtype", line=n.lineno,
+                         role=f"narrow:neg:{unparse(n.operand, 30)}", expected="compare magnitudes, or widen with float(x) first", found=unparse(n))
+            elif isinstance(n, ast.BinOp) and isinstance(n.op, (ast.Mult, ast.Add, ast.Sub, ast.Pow)):
+                for a, o in ((n.left, n.right), (n.right, n.left)):
+                    if _is_bare_hyper(ana, fi, a, taint) and _is_int_valued(ana, fi, o):
+                        seen += 1
+                        ctx.fail(fi, f"`{unparse(n)}` combines a raw hyper-parameter with an integer in scalar arithmetic: "
+                                     "a narrow NumPy scalar (int8, float16) wraps or rounds where a Python float does not",
+                                 line=n.lineno, role=f"narrow:binop:{unparse(a, 30)}", expected="float(x) * n", found=unparse(n))
+    ok_sites = []
+    for fi in ana.prog.functions.values():
+        for n in Resolver.walk_own(fi.node):
+            if isinstance(n, ast.Call) and isinstance(n.func, ast.Name) and n.func.id == "float" and n.args \
+                    and _is_bare_hyper(ana, fi, n.args[0], taint):
+                ok_sites.append((fi, n))
+    for fi, n in ok_sites:
+        ctx.ok(fi, f"`{unparse(n)}` widens the hyper-parameter before scalar arithmetic", line=n.lineno, role=f"widen@{short(fi.qualname)}")
+    if not ok_sites and seen == 0:
+        ctx.ok("package", "no scalar-only arithmetic on a raw hyper-parameter", role="none")
